@@ -2,3 +2,9 @@
 #[verifier::external_body]
 pub fn verif_fmt() -> (r: String) { unimplemented!() }
 // ===== end =====
+// ===== TRUSTED: assumed std semantics of Option::or_else (not specified by vstd) =====
+pub assume_specification<T, F: FnOnce() -> Option<T>>[ Option::<T>::or_else ](o: Option<T>, f: F) -> (r: Option<T>)
+    requires o.is_none() ==> f.requires(()),
+    ensures o.is_some() ==> r == o,
+            o.is_none() ==> f.ensures((), r);
+// ===== end =====
